@@ -81,8 +81,20 @@ pub fn generate(g: &mut G, index: u64) -> Scenario {
     apply_cause(g, &mut fam, cause);
     if closing {
         let ops = &mut fam.sc.clients[0].ops;
+        // a join future that was polled once and is then left alone must not keep later
+        // operations from resolving
+        let kept_join = owning && g.chance(1, 5);
+        if kept_join {
+            ops.push(Op::JoinStart { h: PRIMARY });
+            ops.push(Op::JoinPoll);
+        }
         ops.push(Op::Stop { h: PRIMARY });
         match g.below(3) {
+            _ if kept_join => {
+                ops.push(Op::Await { h: PRIMARY, on_clone: true });
+                ops.push(Op::Join { h: PRIMARY });
+                ops.push(Op::JoinFinish);
+            }
             0 => ops.push(Op::Await { h: PRIMARY, on_clone: true }),
             1 => ops.push(Op::Join { h: PRIMARY }),
             _ => {}
